@@ -39,10 +39,20 @@ def main():
     ap = argparse.ArgumentParser()
     ap.add_argument("-j", type=int, default=6)
     ap.add_argument("--dry-run", action="store_true")
+    ap.add_argument("--only", default="", help="comma-separated seed names to re-evaluate; the others are taken from their meta.json")
     a = ap.parse_args()
     seeds = sorted(p for p in (VERIF / "seeded").iterdir() if (p / "patch.diff").exists())
+    only = {x for x in a.only.split(",") if x}
+    todo = [p for p in seeds if not only or p.name in only]
     with ThreadPoolExecutor(a.j) as ex:
-        results = dict(ex.map(evaluate, seeds))
+        results = dict(ex.map(evaluate, todo))
+    for p in seeds:
+        if p.name not in results:
+            try:
+                m_ = json.loads((p / "meta.json").read_text())
+                results[p.name] = {"violations": m_.get("violations_reported") or {}, "analysis_errors": m_.get("analysis_errors") or {}}
+            except Exception as e:
+                results[p.name] = {"error": str(e)}
     by_prop: dict[str, dict[str, str]] = {}
     changed = []
     for name, d in sorted(results.items()):
